@@ -11,6 +11,7 @@ reference interpreter in model.py.  Model-independent laws are checked on every 
 log as well.  See NOTES.md.
 """
 import hashlib
+import shutil
 import multiprocessing
 import os
 import re
@@ -20,6 +21,7 @@ from itertools import product
 
 sys.path.insert(0, os.path.join(os.path.dirname(os.path.abspath(__file__)), "..", "..", "engine", "mc"))
 from core import *  # noqa: E402,F401
+import core as _core  # noqa: E402
 
 HERE = os.path.dirname(os.path.abspath(__file__))
 sys.path.insert(0, HERE)
@@ -28,7 +30,7 @@ import spaces as S  # noqa: E402
 
 DRIVER = os.path.join(HERE, "driver.janet")
 CHUNK = 1500
-_INT = re.compile(r"\d+")
+_INT = re.compile(r"(?<![a-z0-9])\d+")   # integers, not the digit of :user5
 
 
 # ------------------------------------------------------------------ laws on an observed log
@@ -49,6 +51,37 @@ def entries(text):
                 e = text[start + 1:n]
                 sp = e.find(" ")
                 out.append((e, "") if sp < 0 else (e[:sp], e[sp + 1:]))
+    return out
+
+
+def fin_statuses(text):
+    """final status of every named fiber ('' = never created) from the (:fin ...) entry"""
+    fin = text[text.rindex("(:fin") + 5:]
+    out = []
+    n = 0
+    while n < len(fin):
+        c = fin[n]
+        if c == "(":
+            depth = 0
+            m = n
+            while True:
+                if fin[m] == "(":
+                    depth += 1
+                elif fin[m] == ")":
+                    depth -= 1
+                    if depth == 0:
+                        break
+                m += 1
+            el = fin[n + 1:m]
+            out.append(el.split(" ", 1)[0].lstrip(":"))
+            n = m + 1
+        elif fin.startswith("nil", n):
+            out.append("")
+            n += 3
+        elif c == ")":
+            break
+        else:
+            n += 1
     return out
 
 
@@ -97,8 +130,7 @@ def law_check(prog, info, text):
             if m and m.group(1) in M.TERMINAL:
                 dead.add(tk)
     if info["cleanups"]:
-        fin = text[text.rindex("(:fin"):]
-        stats = re.findall(r"\(:([a-z0-9]+) |nil", fin[5:])
+        stats = fin_statuses(text)
         for i, (kind, own, strict) in info["cleanups"].items():
             entered = seen.get((i, "in"), 0)
             ran = seen.get((i, "c"), 0)
@@ -160,6 +192,76 @@ def shape(text):
     return _INT.sub("#", text)
 
 
+MAX_DEATHS_PER_CHUNK = 2      # interpreter deaths (hang / crash) tolerated per chunk before the rest is skipped
+MAX_DEATHS_PER_PART = 6       # ... per part before the part is abandoned (the run is red by then anyway)
+STOP = multiprocessing.Value("i", 0)
+
+
+def run_items(items, t_first=25, t_trace=8):
+    """run the driver over `items` in one vjanet process.  -> list of (status, text), status in
+    OK / ERR / CRASH / TIMEOUT / SKIPPED.  A death (signal, hang) is attributed to one item by a traced re-run
+    from the first item without a result; at most MAX_DEATHS_PER_CHUNK deaths are investigated, the
+    remaining items are then SKIPPED (never silently counted as evaluated)."""
+    exe = vjanet("fast")
+    out = [None] * len(items)
+    offset = 0
+    deaths = 0
+    d = mktmp()
+    try:
+        while offset < len(items):
+            if deaths >= MAX_DEATHS_PER_CHUNK or STOP.value:
+                for k in range(offset, len(items)):
+                    out[k] = ("SKIPPED", "")
+                break
+            sub = items[offset:]
+            ip, op = os.path.join(d, "items.jdn"), os.path.join(d, "out.txt")
+            with open(ip, "w") as f:
+                f.write("\n".join(sub))
+                f.write("\n")
+            if os.path.exists(op):
+                os.unlink(op)
+            r = _core.run(exe, [DRIVER, ip, op], timeout=t_first)
+            res, begun, done, fatal = _core._parse_out(op)
+            if fatal:
+                raise HarnessError("batch driver fatal: %s" % fatal)
+            if done and not r.crashed and not r.timed_out:
+                if len(res) != len(sub):
+                    raise HarnessError("driver: %d results for %d items; stderr=%s" % (
+                        len(res), len(sub), r.err[-2000:].decode(errors="replace")))
+                for i, v in res.items():
+                    out[offset + i] = v
+                break
+            n = 0
+            while n in res:
+                out[offset + n] = res[n]
+                n += 1
+            offset += n
+            # traced re-run (flush before every item) of at most the next 80 items: the culprit is among them
+            sub = items[offset:offset + 80]
+            with open(ip, "w") as f:
+                f.write("\n".join(sub))
+                f.write("\n")
+            os.unlink(op) if os.path.exists(op) else None
+            r = _core.run(exe, [DRIVER, ip, op], env={"VERIF_BATCH_TRACE": "1"}, timeout=t_trace)
+            res, begun, done, fatal = _core._parse_out(op)
+            n = 0
+            while n in res:
+                out[offset + n] = res[n]
+                n += 1
+            if done and not r.crashed and not r.timed_out:
+                # did not die this time (e.g. the first run was only slow): carry on after these items
+                offset += n
+                continue
+            if begun < n:
+                raise HarnessError("driver died outside an item: %s" % r.describe())
+            out[offset + n] = ("TIMEOUT" if r.timed_out else "CRASH", r.describe())
+            offset += n + 1
+            deaths += 1
+    finally:
+        shutil.rmtree(d, ignore_errors=True)
+    return out
+
+
 def work(job):
     name, lo, hi = job
     sp = S.SPACES[name]
@@ -167,6 +269,9 @@ def work(job):
     n_unspec = {}
     n_skipped = 0
     feats = {}
+    if STOP.value:
+        return dict(name=name, lo=lo, hi=hi, ran=0, skipped=0, unspec={}, feats={}, bad=[], shapes=set(), raw=set(),
+                    not_run=hi - lo, deaths=0)
     for idx in range(lo, hi):
         nodes = sp.build(idx)
         if nodes is None:
@@ -184,11 +289,18 @@ def work(job):
         items.append(M.render(prog))
         exps.append(exp)
         idxs.append(idx)
-    res = run_batch("fast", DRIVER, items, chunk=max(1, len(items)), jobs=1, timeout=20) if items else []
+    res = run_items(items) if items else []
     bad = []
     shapes = set()
     raw = set()
+    n_skip_dead = 0
+    n_deaths = 0
     for prog, item, exp, idx, (status, text) in zip(progs, items, exps, idxs, res):
+        if status == "SKIPPED":
+            n_skip_dead += 1
+            continue
+        if status in ("CRASH", "TIMEOUT"):
+            n_deaths += 1
         if status == "OK":
             shapes.add(shape(text))
             raw.add(hashlib.md5(text.encode()).digest()[:8])
@@ -199,8 +311,8 @@ def work(job):
         lv = law_check(prog, prog_info(prog), text)
         if lv is not None and len(bad) < 20:
             bad.append((idx, "LAW", lv[0] + ": " + lv[1], text))
-    return dict(name=name, lo=lo, hi=hi, ran=len(items), skipped=n_skipped, unspec=n_unspec,
-                feats=feats, bad=bad, shapes=shapes, raw=raw)
+    return dict(name=name, lo=lo, hi=hi, ran=len(items) - n_skip_dead, skipped=n_skipped, unspec=n_unspec,
+                feats=feats, bad=bad, shapes=shapes, raw=raw, not_run=n_skip_dead, deaths=n_deaths)
 
 
 # ------------------------------------------------------------------ verdicts
@@ -280,7 +392,7 @@ def run_pinned(chk):
             exp = M.run(prog)[0]
         except M.Unspecified:
             exp = None
-        res = run_batch("fast", DRIVER, [item], chunk=1, jobs=1, timeout=4)
+        res = run_items([item], t_first=4, t_trace=4)
         status, text = res[0]
         chk.add(evaluations=1)
         chk.part("pinned", programs=1)
@@ -304,6 +416,48 @@ def run_pinned(chk):
                           replay_text=M.standalone(prog, exp), replay_cmd="janet <this file>")
 
 
+VALUE_ROUTES = ("arg arg-opt yield-out yield-in return error cancel cancel-new propagate pass2-out pass2-in pass3-error "
+                "each loop-in generate last-value-yield last-value-return last-value-error try try-value protect "
+                "protect-value defer-value defer-error edefer-error with-value prompt prompt-nested label with-dyns "
+                "dyn-inherit dyn-proto dyn-default c-callback-error map-yield yield-through-defer resume-through-try "
+                "signal-debug").split() + ["signal-%d" % n for n in range(10)] + ["signal-in-%d" % n for n in range(5, 10)]
+VALUE_NAMES = ["nil", "true", "false", "0", "-0", "1", "-1", "1.5", "nan", "inf", "1e300", "string", "empty-string",
+               "keyword", "symbol", "tuple", "empty-tuple", "struct", "table", "array", "buffer", "function",
+               "cfunction", "fiber", "s64", "u64", "nested-tuple", "array-of-nil", "bracket-tuple"]
+SEQ_VALUES = (0, 4, 8, 18, 19, 24)
+
+
+def run_values(chk):
+    """every value kind x every route through the protocol arrives identical (same type, same identity for
+    reference types, same canonical text); triples of values out by yield / in by resume arrive in order"""
+    items = ["[:%s %d]" % (r, i) for r in VALUE_ROUTES for i in range(len(VALUE_NAMES))]
+    meta = [(r, VALUE_NAMES[i]) for r in VALUE_ROUTES for i in range(len(VALUE_NAMES))]
+    for i in SEQ_VALUES:
+        for j in SEQ_VALUES:
+            for k in SEQ_VALUES:
+                items.append("[:seq3 %d %d %d]" % (i, j, k))
+                meta.append(("seq3", "%s,%s,%s" % (VALUE_NAMES[i], VALUE_NAMES[j], VALUE_NAMES[k])))
+    res = run_batch("fast", os.path.join(HERE, "driver_values.janet"), items, chunk=300, timeout=20)
+    bad = 0
+    for item, (route, vname), (status, text) in zip(items, meta, res):
+        chk.add(evaluations=1, transitions=1)
+        chk.outcome("values:" + (text if status == "OK" else status))
+        if status == "OK" and text.startswith("T "):
+            continue
+        bad += 1
+        chk.violation(sig="values:%s:%s" % (route, vname),
+                      what="value %s sent through route %s: %s %s" % (vname, route, status, text[:300]),
+                      replay_text="# run with the C05 values driver:\n#   item %s of props/C05/driver_values.janet (route %s, value %s)\n" % (item, route, vname),
+                      replay_cmd="see props/C05/driver_values.janet, route :%s" % route)
+    chk.part("values", cases=len(items), routes=len(VALUE_ROUTES), value_kinds=len(VALUE_NAMES), mismatches=bad,
+             what="29 value kinds x 52 routes (resume argument, yield in/out, return, error, every signal 0-9 and :debug in "
+                  "and out, cancel, propagate, pass-through over 2 and 3 levels, each/loop/generate, last-value, try, "
+                  "protect, defer, edefer, with, prompt, label, with-dyns, :i/:p inheritance, C callback error, map) "
+                  "+ 216 ordered triples yielded out and resumed in")
+    sys.stdout.write("  part %-14s %8d cases %37d mismatches\n" % ("values", len(items), bad))
+    sys.stdout.flush()
+
+
 def main():
     chk = Check("C05")
     chk.rule("one case = one generated fiber program (tree of named fibers: signal mask + env flag + body over "
@@ -322,6 +476,8 @@ def main():
     rate = None        # programs per second, measured on the parts already run
     try:
         run_pinned(chk)
+        if not only or re.search(only, "values"):
+            run_values(chk)
         for pi, name in enumerate(plan):
             if only and not re.search(only, name):
                 continue
@@ -337,8 +493,14 @@ def main():
             bads = []
             shapes, raw = set(), set()
             aborted = False
+            not_run = deaths = 0
+            STOP.value = 0
             it = pool.imap_unordered(work, jobs)
             for r in it:
+                not_run += r["not_run"]
+                deaths += r["deaths"]
+                if deaths >= MAX_DEATHS_PER_PART and not STOP.value:
+                    STOP.value = 1          # the remaining chunks return at once (items SKIPPED)
                 ran += r["ran"]
                 skipped += r["skipped"]
                 for k, v in r["unspec"].items():
@@ -348,13 +510,15 @@ def main():
                 bads.extend(r["bad"])
                 shapes |= r["shapes"]
                 raw |= r["raw"]
-                if chk.elapsed() > chk.budget * 1.1:
+                if chk.elapsed() > chk.budget * 1.1 and not STOP.value:
                     aborted = True
-                    break
+                    STOP.value = 1
             if aborted:
-                pool.terminate()
-                pool = multiprocessing.Pool(JOBS)
                 chk.cap("part %s stopped after %d of %d programs: time budget" % (name, ran, sp.size))
+            elif not_run:
+                aborted = True
+                chk.cap("part %s: %d programs not run after %d interpreter deaths (hang/crash, reported above)" % (
+                    name, not_run, deaths))
             else:
                 done.append(name)
             dt = time.time() - t0
